@@ -127,7 +127,12 @@ pub fn received_to_json(world: &World, sub: &str, received: &[ReceivedMessage]) 
     let mut deliveries = world.deliveries.lock().unwrap();
     let list = deliveries.entry(sub.to_string()).or_default();
     let mut out = Vec::new();
-    for r in received {
+    let light = deltio::verif::light();
+    for (idx, r) in received.iter().enumerate() {
+        if light && idx >= 3 {
+            list.push(r.ack_id.clone());
+            continue;
+        }
         list.push(r.ack_id.clone());
         let m = r.message.clone().unwrap_or_default();
         let ack = match r.ack_id.parse::<u64>() {
@@ -347,7 +352,8 @@ async fn exec_inner(world: Arc<World>, c: usize, spec: CallSpec) -> (String, Val
             match subscriber.pull(request).await {
                 Ok(r) => (
                     "OK".into(),
-                    json!({"msgs": received_to_json(&world, &sub, &r.get_ref().received_messages)}),
+                    json!({"msgs": received_to_json(&world, &sub, &r.get_ref().received_messages),
+                           "n": r.get_ref().received_messages.len()}),
                 ),
                 Err(s) => status_ret(&s),
             }
